@@ -699,6 +699,21 @@ func (wf *Workflow[I, O]) compile(ctx context.Context, options *graphCompileOpti
 
 	// TODO: check indirect edges are legal
 
+	for _, key := range wf.nodeOrder {
+		node, ok := wf.g.nodes[key]
+		if !ok || node == nil || node.nodeInfo == nil || len(node.nodeInfo.inputKey) == 0 {
+			continue
+		}
+		for path := range wf.workflowNodes[key].installedStatic {
+			if p := splitFieldPath(path); len(p) > 0 && p[0] == node.nodeInfo.inputKey {
+				if wf.g.staticUnderInputKey == nil {
+					wf.g.staticUnderInputKey = make(map[string]bool)
+				}
+				wf.g.staticUnderInputKey[key] = true
+			}
+		}
+	}
+
 	return wf.g.compile(ctx, options)
 }
 
